@@ -13,6 +13,8 @@ fn main() {
     for (header, body) in cases {
         let id = header.split_whitespace().next().unwrap_or("?").to_string();
         let run = header.split_whitespace().any(|t| t == "run=1");
+        let cons: u8 = header.split_whitespace().find_map(|t| t.strip_prefix("cons=")).and_then(|v| v.parse().ok()).unwrap_or(0);
+        boa_ast::scope::verif::set_conservative(cons);
         let r = std::panic::catch_unwind(|| {
             let mut ctx = Context::builder().instructions_remaining(1 << 20).build().unwrap();
             match Script::parse(Source::from_bytes(body.as_bytes()), None, &mut ctx) {
@@ -38,6 +40,7 @@ fn main() {
                 },
             }
         });
+        boa_ast::scope::verif::set_conservative(0);
         match r { Ok(s) => print!("{s}"), Err(_) => println!("#### {id} panic") }
         println!("#### end");
     }
